@@ -64,6 +64,34 @@ CLAIMED = {
         "Lean kernel + standard axioms; translator; sparse.COO densification semantics (A-EXT).",
         "Lean 4 proof (finite-sum collapse) + exhaustive correspondence",
         "DESIGN.md §7 C19"),
+    "C17": (
+        "Machine-checked proofs: indices<->coordinates are mutually inverse for every zero point and non-parallel a, b "
+        "(Cramer), singular lattices rejected; the frame test (generated from base/utils.py) is exactly r <= p < f - r on "
+        "both axes; frame_peaks returns exactly the in-range index/coordinate pairs with coordinate zero + i a + j b, "
+        "order preserved; array-shape dispatch of both index layouts (identical in regularize_indices and "
+        "Match.calc_coords); drop_zero removes exactly (0,0); exact correspondence on dyadic lattices.",
+        "Lean kernel + standard axioms; translator; NumPy dot/solve/concatenate semantics pinned textually and compared; "
+        "polar/cartesian round trip (trigonometry) is checked by the oracle only.",
+        "Lean 4 proof (field algebra, list membership) on source-generated predicates + exact differential correspondence",
+        "DESIGN.md §7 C17"),
+    "C06": (
+        "Machine-checked proofs in exact arithmetic: every solution of the weighted normal equations of the design [1,i,j] "
+        "is a global minimiser of the weighted sum of squared distances for all non-negative weights; Cramer solution "
+        "solves them and is unique at rank 3; covariance under every affine map (zero by the map, a,b by its linear part); "
+        "invariance under weight rescaling; source text of weighted_optimize/optimize/error/affinematch pinned; real fits "
+        "compared with the exact rational optimum.",
+        "Lean kernel + standard axioms; A-LA (lstsq returns a least-squares solution) is an assumption tied by the "
+        "correspondence; float conditioning handled by scaled tolerances.",
+        "Lean 4 proof (normal equations => optimum, linear_combination) + differential correspondence against exact rational solver",
+        "DESIGN.md §7 C06"),
+    "C20": (
+        "Machine-checked proofs: an exact affine relation is reproduced exactly by any solution of the squared-weight "
+        "normal equations for any centre and positive weights (no rank condition needed); optimality for squared weights "
+        "under residuals; find_center's linear system yields a fixed point of the homogeneous matrix; source text of the "
+        "three helpers pinned; real fits compared with the exact rational solution.",
+        "Lean kernel + standard axioms; A-LA (lstsq/solve) tied by the correspondence.",
+        "Lean 4 proof (sum of non-negative terms, WLS optimality) + differential correspondence",
+        "DESIGN.md §7 C20"),
 }
 
 NOT_YET = {}
